@@ -21,6 +21,7 @@ EXPLANATION = (
     "instruction is dominated by the static-context test; value transfer debits before it reads the "
     "recipient's balance, with the same amount; returndata semantics. Values of balances are not decided."
     ' Also evaluated here: fork-copy completeness and the absence of custom copy hooks (C20 R20.1, C14 R14.1): a prank or frame record shared between sibling paths changes the sender a call sees.'
+    ' Round 4: is_create recognises exactly CREATE and CREATE2 in any comparison form; the insufficient-funds branch is kept unless proved infeasible (C02 R02.1 at handle_insufficient_fund_case / transfer_value).'
 )
 ASSUMPTIONS = ["deepcopy / dict.copy semantics", "StorageData has no custom __deepcopy__ that shares state (checked)"]
 
@@ -350,8 +351,30 @@ def r09_5_returndata(repo: Repo, rep: Report):
     _, rs = repo.fn("sevm.Exec.returndatasize")
     rep.check("R09.5", "len(returndata) if returndata is not None else 0" in src(rs), m, rs, "returndatasize = len(returndata())", "RETURNDATASIZE must be the size of returndata()")
     _, ic = repo.fn("sevm.Message.is_create")
-    v = fold_in(repo, "sevm", [r for r in body_walk(ic) if isinstance(r, ast.Return)][0].value.comparators[0])
-    rep.check("R09.5", v is not UNKNOWN and set(v) == {0xF0, 0xF5}, m, ic, f"is_create: call_scheme in {v}", "is_create must recognise CREATE and CREATE2")
+    rets_ic = [r for r in body_walk(ic) if isinstance(r, ast.Return) and r.value is not None]
+    got = None
+    if len(rets_ic) == 1 and isinstance(rets_ic[0].value, ast.Compare) and len(rets_ic[0].value.ops) == 1 and src(rets_ic[0].value.left) == "self.call_scheme":
+        cmp_ = rets_ic[0].value
+        v = fold_in(repo, "sevm", cmp_.comparators[0])
+        if v is not UNKNOWN:
+            if isinstance(cmp_.ops[0], ast.In) and isinstance(v, (tuple, list, set, frozenset)):
+                got = set(v)
+            elif isinstance(cmp_.ops[0], ast.Eq) and isinstance(v, int):
+                got = {v}
+    elif len(rets_ic) == 1 and isinstance(rets_ic[0].value, ast.BoolOp) and isinstance(rets_ic[0].value.op, ast.Or):
+        parts = set()
+        for x in rets_ic[0].value.values:
+            if isinstance(x, ast.Compare) and len(x.ops) == 1 and isinstance(x.ops[0], ast.Eq) and src(x.left) == "self.call_scheme":
+                v = fold_in(repo, "sevm", x.comparators[0])
+                if isinstance(v, int):
+                    parts.add(v)
+                    continue
+            parts = None
+            break
+        got = parts
+    if got is None:
+        raise AnalysisError("Message.is_create: not a membership / equality test of self.call_scheme")
+    rep.check("R09.5", got == {0xF0, 0xF5}, m, ic, f"is_create: call_scheme in {sorted(got)}", "is_create must recognise exactly CREATE (0xf0) and CREATE2 (0xf5): it decides whether RETURNDATA is empty after a successful creation and whether the frame's input is code")
 
 
 def r09_6_shared(repo: Repo, rep: Report):
